@@ -18,7 +18,10 @@ def sh(cmd, cwd=None, env=None, timeout=3600):
     e = dict(os.environ)
     if env:
         e.update(env)
-    p = subprocess.run(cmd, shell=True, cwd=cwd, env=e, stdout=subprocess.PIPE, stderr=subprocess.STDOUT, timeout=timeout)
+    try:
+        p = subprocess.run(cmd, shell=True, cwd=cwd, env=e, stdout=subprocess.PIPE, stderr=subprocess.STDOUT, timeout=timeout)
+    except subprocess.TimeoutExpired:
+        return 124, "timeout"
     return p.returncode, p.stdout.decode(errors="replace")
 
 
@@ -104,13 +107,13 @@ def main():
             continue
         open(f, "w").write(new + "\n")
         rec = {"file": rel, "site": k, "kind": kind, "line": line, "orig": src.splitlines()[line - 1].strip() if line else ""}
-        rc, out = sh("/venv/bin/python -m pytest -q -x -p no:cacheprovider 2>&1 | tail -1", cwd=WT, env={"PYTHONPATH": WT, "PYTHONDONTWRITEBYTECODE": "1"}, timeout=600)
+        rc, out = sh("timeout -k 5 120 /venv/bin/python -m pytest -q -x -p no:cacheprovider 2>&1 | tail -1", cwd=WT, env={"PYTHONPATH": WT, "PYTHONDONTWRITEBYTECODE": "1"}, timeout=600)
         rec["tests"] = out.strip()[-60:]
         if "180 passed" in out:
             import concurrent.futures
 
             def one(pid):
-                rc, o = sh("./check %s --tier quick" % pid, cwd=VERIF, timeout=3000,
+                rc, o = sh("timeout -k 5 900 ./check %s --tier quick" % pid, cwd=VERIF, timeout=3000,
                            env={"CFI_REPO": WT, "VERIF_SCRATCH": SCR, "VERIF_EVIDENCE_DIR": SCR + "/ev", "VERIF_JOBS": "2"})
                 v = [l for l in o.splitlines() if l.startswith("VIOLATION")]
                 return pid, rc, bool(v) and all("no-failing-input-found" in l for l in v)
